@@ -4,7 +4,7 @@
 -/
 import PgProofs.SymLookup
 namespace Pg.Sym
-variable {lcs nb : Bool} {sp : Option Bool}
+variable {lcs nb : Bool} {sp : Option Bool} {sat : Bool}
 
 theorem mem_insertByIdx (key : Tree → Nat) (x : Tree) : (l : List Tree) → ∀ y, y ∈ insertByIdx key x l ↔ y = x ∨ y ∈ l
   | [], y => by simp [insertByIdx]
@@ -39,7 +39,7 @@ theorem normalizeRoots_ok (before after : Forest) (k : Bool) (h : after.ok = tru
   · exact h r hmem
 
 theorem dropAll_ok (f : Forest) (t : Nat) (m : Meta) (its : Items) (hf : f.ok = true)
-    (hits : okItems m.id m.path its = true) : (dropAll (Cfg.fixedWith lcs nb sp) f t m its).ok = true := by
+    (hits : okItems m.id m.path its = true) : (dropAll (Cfg.fixedWith lcs nb sp sat) f t m its).ok = true := by
   unfold dropAll
   apply addRoots_ok _ _ (mapAt_ok f t _ (clear_local t) hf)
   intro t ht
@@ -50,7 +50,7 @@ theorem dropAll_ok (f : Forest) (t : Nat) (m : Meta) (its : Items) (hf : f.ok = 
   exact detachFrom_ok m.kind (hits kv hkv)
 
 theorem rawDelList_ok (f : Forest) (m : Meta) (its : Items) (pos : Nat) (hf : f.ok = true)
-    (hits : okItems m.id m.path its = true) : (rawDelList (Cfg.fixedWith lcs nb sp) f m its pos).ok = true := by
+    (hits : okItems m.id m.path its = true) : (rawDelList (Cfg.fixedWith lcs nb sp sat) f m its pos).ok = true := by
   unfold rawDelList
   apply addRoot_ok
   · apply mapAt_ok f m.id _ _ hf
@@ -65,7 +65,7 @@ theorem rawDelList_ok (f : Forest) (m : Meta) (its : Items) (pos : Nat) (hf : f.
 
 theorem delItemList_ok (f : Forest) (n : Bool) (m : Meta) (its : Items) (idx : Int) (acc : Bool)
     (hf : f.ok = true) (hits : okItems m.id m.path its = true) :
-    (delItemList (Cfg.fixedWith lcs nb sp) f n m its idx acc).forest.ok = true := by
+    (delItemList (Cfg.fixedWith lcs nb sp sat) f n m its idx acc).forest.ok = true := by
   unfold delItemList
   simp only
   split; · exact hf
@@ -93,8 +93,8 @@ theorem dictErase_ok (f : Forest) (m : Meta) (its : Items) (k : Key) (hf : f.ok 
   exact addRoots_ok _ _ (mapAt_ok f m.id _ (erase_local m.id k) hf) (dictDetached_ok hits)
 
 theorem rawSetDict_missing_cases (f : Forest) (m : Meta) (its : Items) (k : Key) (hk : m.kind = .dict) :
-    rawSetDict (Cfg.fixedWith lcs nb sp) f m its k (.atom .missing) = .ok (f, false) ∨
-    rawSetDict (Cfg.fixedWith lcs nb sp) f m its k (.atom .missing) = .ok (dictErase f m its k, true) := by
+    rawSetDict (Cfg.fixedWith lcs nb sp sat) f m its k (.atom .missing) = .ok (f, false) ∨
+    rawSetDict (Cfg.fixedWith lcs nb sp sat) f m its k (.atom .missing) = .ok (dictErase f m its k, true) := by
   by_cases h1 : sameValue (.atom .missing) (getKey its k) = true
   · left; simp [rawSetDict, h1]
   by_cases h2 : hasKey its k = true
@@ -103,21 +103,21 @@ theorem rawSetDict_missing_cases (f : Forest) (m : Meta) (its : Items) (k : Key)
 
 theorem rawSetDict_missing_ok (f : Forest) (m : Meta) (its : Items) (k : Key) (hf : f.ok = true)
     (hits : okItems m.id m.path its = true) (hk : m.kind = .dict) :
-    ∀ r, rawSetDict (Cfg.fixedWith lcs nb sp) f m its k (.atom .missing) = .ok r → r.1.ok = true := by
+    ∀ r, rawSetDict (Cfg.fixedWith lcs nb sp sat) f m its k (.atom .missing) = .ok r → r.1.ok = true := by
   intro r hr
   rcases rawSetDict_missing_cases f m its k hk with h | h
   · rw [h] at hr; cases hr; exact hf
   · rw [h] at hr; cases hr; exact dictErase_ok f m its k hf hits
 
 theorem permute_ok (f : Forest) (t : Nat) (g : Items → Items) (hg : NoNewValues g) (hf : f.ok = true) :
-    (permute (Cfg.fixedWith lcs nb sp) f t g).ok = true := by
+    (permute (Cfg.fixedWith lcs nb sp sat) f t g).ok = true := by
   unfold permute
   simp only [Cfg.fixedWith, if_true]
   exact mapAt_ok f t _ (rearrange_local t g hg) hf
 
 theorem delItemDict_ok (f : Forest) (n : Bool) (m : Meta) (its : Items) (k : Key) (acc : Bool)
     (hf : f.ok = true) (hits : okItems m.id m.path its = true) (hk : m.kind = .dict) :
-    (delItemDict (Cfg.fixedWith lcs nb sp) f n m its k acc).forest.ok = true := by
+    (delItemDict (Cfg.fixedWith lcs nb sp sat) f n m its k acc).forest.ok = true := by
   unfold delItemDict
   split; · exact hf
   split; · exact hf
@@ -134,7 +134,7 @@ theorem delItemDict_ok (f : Forest) (n : Bool) (m : Meta) (its : Items) (k : Key
 end Pg.Sym
 
 namespace Pg.Sym
-variable {lcs nb : Bool} {sp : Option Bool}
+variable {lcs nb : Bool} {sp : Option Bool} {sat : Bool}
 
 /-! ### slice deletion and seal -/
 
@@ -143,7 +143,7 @@ theorem noNew_filter (q : Key × Tree → Bool) : NoNewValues (fun xs => xs.filt
   exact ⟨kv, (List.mem_filter.mp hkv).1, rfl⟩
 
 theorem rawDelMany_ok (f : Forest) (m : Meta) (its : Items) (ps : List Nat) (hf : f.ok = true)
-    (hits : okItems m.id m.path its = true) : (rawDelMany (Cfg.fixedWith lcs nb sp) f m its ps).ok = true := by
+    (hits : okItems m.id m.path its = true) : (rawDelMany (Cfg.fixedWith lcs nb sp sat) f m its ps).ok = true := by
   unfold rawDelMany
   apply addRoots_ok
   · apply mapAt_ok f m.id _ _ hf
@@ -262,7 +262,7 @@ theorem normalizeRoots_free (before after : Forest) (k : Bool) (h : after.rootsF
   · exact h r hmem
 
 theorem dropAll_free (f : Forest) (t : Nat) (m : Meta) (its : Items) (hf : f.rootsFree = true) :
-    (dropAll (Cfg.fixedWith lcs nb sp) f t m its).rootsFree = true := by
+    (dropAll (Cfg.fixedWith lcs nb sp sat) f t m its).rootsFree = true := by
   unfold dropAll
   apply addRoots_free _ _ (mapAt_free f t _ hf)
   intro x hx
@@ -271,14 +271,14 @@ theorem dropAll_free (f : Forest) (t : Nat) (m : Meta) (its : Items) (hf : f.roo
   exact detachFrom_parentless _ _
 
 theorem rawDelList_free (f : Forest) (m : Meta) (its : Items) (pos : Nat) (hf : f.rootsFree = true) :
-    (rawDelList (Cfg.fixedWith lcs nb sp) f m its pos).rootsFree = true := by
+    (rawDelList (Cfg.fixedWith lcs nb sp sat) f m its pos).rootsFree = true := by
   unfold rawDelList
   apply addRoot_free _ _ (mapAt_free f m.id _ hf)
   simp only [Cfg.fixedWith, if_true]
   exact detachFrom_parentless _ _
 
 theorem rawDelMany_free (f : Forest) (m : Meta) (its : Items) (ps : List Nat) (hf : f.rootsFree = true) :
-    (rawDelMany (Cfg.fixedWith lcs nb sp) f m its ps).rootsFree = true := by
+    (rawDelMany (Cfg.fixedWith lcs nb sp sat) f m its ps).rootsFree = true := by
   unfold rawDelMany
   apply addRoots_free _ _ (mapAt_free f m.id _ hf)
   intro x hx
@@ -287,7 +287,7 @@ theorem rawDelMany_free (f : Forest) (m : Meta) (its : Items) (ps : List Nat) (h
   exact detachFrom_parentless _ _
 
 theorem delItemList_free (f : Forest) (n : Bool) (m : Meta) (its : Items) (idx : Int) (acc : Bool)
-    (hf : f.rootsFree = true) : (delItemList (Cfg.fixedWith lcs nb sp) f n m its idx acc).forest.rootsFree = true := by
+    (hf : f.rootsFree = true) : (delItemList (Cfg.fixedWith lcs nb sp sat) f n m its idx acc).forest.rootsFree = true := by
   unfold delItemList
   simp only
   split; · exact hf
@@ -309,7 +309,7 @@ theorem dictDetached_free (its : Items) (k : Key) : ∀ t ∈ (dictDetached its 
 
 theorem rawSetDict_missing_free (f : Forest) (m : Meta) (its : Items) (k : Key) (hf : f.rootsFree = true)
     (hk : m.kind = .dict) :
-    ∀ r, rawSetDict (Cfg.fixedWith lcs nb sp) f m its k (.atom .missing) = .ok r → r.1.rootsFree = true := by
+    ∀ r, rawSetDict (Cfg.fixedWith lcs nb sp sat) f m its k (.atom .missing) = .ok r → r.1.rootsFree = true := by
   intro r hr
   rcases rawSetDict_missing_cases f m its k hk with h | h
   · rw [h] at hr; cases hr; exact hf
@@ -319,7 +319,7 @@ theorem rawSetDict_missing_free (f : Forest) (m : Meta) (its : Items) (k : Key) 
 
 theorem delItemDict_free (f : Forest) (n : Bool) (m : Meta) (its : Items) (k : Key) (acc : Bool)
     (hf : f.rootsFree = true) (hk : m.kind = .dict) :
-    (delItemDict (Cfg.fixedWith lcs nb sp) f n m its k acc).forest.rootsFree = true := by
+    (delItemDict (Cfg.fixedWith lcs nb sp sat) f n m its k acc).forest.rootsFree = true := by
   unfold delItemDict
   split; · exact hf
   split; · exact hf
@@ -334,7 +334,7 @@ theorem delItemDict_free (f : Forest) (n : Bool) (m : Meta) (its : Items) (k : K
     · exact this
 
 theorem permute_free (f : Forest) (t : Nat) (g : Items → Items) (hf : f.rootsFree = true) :
-    (permute (Cfg.fixedWith lcs nb sp) f t g).rootsFree = true := by
+    (permute (Cfg.fixedWith lcs nb sp sat) f t g).rootsFree = true := by
   unfold permute
   exact mapAt_free f t _ hf
 
@@ -347,12 +347,12 @@ theorem mapSubtree_seal_parentless (t : Nat) (s : Bool) (tr : Tree) :
 end Pg.Sym
 
 namespace Pg.Sym
-variable {lcs nb : Bool} {sp : Option Bool}
+variable {lcs nb : Bool} {sp : Option Bool} {sat : Bool}
 
 /-! ### clear / sort / reverse with their change notification (6daab50) -/
 
 theorem clearAndNotify_ok (f : Forest) (n : Bool) (t : Nat) (m : Meta) (its : Items) (hf : f.ok = true)
-    (hits : okItems m.id m.path its = true) : (clearAndNotify (Cfg.fixedWith lcs nb sp) f n t m its).ok = true := by
+    (hits : okItems m.id m.path its = true) : (clearAndNotify (Cfg.fixedWith lcs nb sp sat) f n t m its).ok = true := by
   unfold clearAndNotify
   simp only
   split
@@ -360,7 +360,7 @@ theorem clearAndNotify_ok (f : Forest) (n : Bool) (t : Nat) (m : Meta) (its : It
   · exact dropAll_ok f t m its hf hits
 
 theorem clearAndNotify_free (f : Forest) (n : Bool) (t : Nat) (m : Meta) (its : Items) (hf : f.rootsFree = true) :
-    (clearAndNotify (Cfg.fixedWith lcs nb sp) f n t m its).rootsFree = true := by
+    (clearAndNotify (Cfg.fixedWith lcs nb sp sat) f n t m its).rootsFree = true := by
   unfold clearAndNotify
   simp only
   split
@@ -368,7 +368,7 @@ theorem clearAndNotify_free (f : Forest) (n : Bool) (t : Nat) (m : Meta) (its : 
   · exact dropAll_free f t m its hf
 
 theorem permuteAndNotify_ok (f : Forest) (n : Bool) (t : Nat) (its : Items) (g : Items → Items)
-    (hg : NoNewValues g) (hf : f.ok = true) : (permuteAndNotify (Cfg.fixedWith lcs nb sp) f n t its g).ok = true := by
+    (hg : NoNewValues g) (hf : f.ok = true) : (permuteAndNotify (Cfg.fixedWith lcs nb sp sat) f n t its g).ok = true := by
   unfold permuteAndNotify
   simp only
   split
@@ -376,7 +376,7 @@ theorem permuteAndNotify_ok (f : Forest) (n : Bool) (t : Nat) (its : Items) (g :
   · exact permute_ok f t g hg hf
 
 theorem permuteAndNotify_free (f : Forest) (n : Bool) (t : Nat) (its : Items) (g : Items → Items)
-    (hf : f.rootsFree = true) : (permuteAndNotify (Cfg.fixedWith lcs nb sp) f n t its g).rootsFree = true := by
+    (hf : f.rootsFree = true) : (permuteAndNotify (Cfg.fixedWith lcs nb sp sat) f n t its g).rootsFree = true := by
   unfold permuteAndNotify
   simp only
   split
